@@ -260,7 +260,7 @@ fn run_pair<T: Elem, U: Elem>(sc: &Scenario) -> Result<Stats, Failure> {
             }
         }))
     };
-    let result = if sc.in_unwind { run_while_unwinding(call) } else { call() };
+    let result = if sc.in_unwind && cfg!(panic = "unwind") { run_while_unwinding(call) } else { call() };
     // state right after the call; the allocation stays watched until the result is dropped
     let release_during = if tracked_alloc { alloc_state() } else { Release::NotReleased };
     let freed_during = release_during != Release::NotReleased;
